@@ -11,9 +11,9 @@ import (
 
 func init() {
 	register(&PropSpec{
-		ID: "C12",
+		ID:          "C12",
 		Explanation: "Structural necessary conditions for 'decoders never crash on hostile bytes'. D1: every EncodeTo/DecodeFrom of a non-mock encoding registers, before any other call, a deferred function that itself calls recover() and on a recovered value stores a non-nil error into the error result; no goroutine is started from the codec (a panic there would escape). This is necessary because panics are reachable from the converters (uuid.Must on broker bytes, nil sub-messages). D2: encoding.Transport.Read validates the length of the bytes just read against the maximum before it decodes, returns that error, and validateMessageSize rejects exactly target > max for max != 0 with ErrMessageTooLarge. D3: no panicking (single-value) type assertion is applied to a value that derives from a broker-controlled source (the reply of sendRequest, a transport Read, a message channel).",
-		NotDecided: []string{"for all byte strings (that is fuzzing)", "re-encodability of every decoded message", "hangs inside the third-party unmarshalers"},
+		NotDecided:  []string{"for all byte strings (that is fuzzing)", "re-encodability of every decoded message", "hangs inside the third-party unmarshalers"},
 		Rules: func(r *Run) {
 			ruleC12D1(r)
 			ruleC12D2(r)
@@ -23,7 +23,7 @@ func init() {
 				ruleC11M2(r, pk) // registered as M2: decoder literals are complete and zero literals are acceptable to the decoder itself
 			}
 			le := newLockEngine(r.P)
-			ruleLockPairingFor(r, le, "D5", "the wire read path never wedges on a lock: every function of package wire that takes a lock releases it on every path (an unsolicited frame must not leave a mutex held)", func(fn *ssa.Function) bool { return fnPkgPath(fn) == modPath+"/wire" && le.Info(fn).Events > 0 }, 10)
+			ruleLockPairingFor(r, le, "D5", "the wire read path never wedges on a lock: every function of package wire that takes a lock releases it on every path (an unsolicited frame must not leave a mutex held)", func(fn *ssa.Function) bool { return fnPkgPath(fn) == modPath+"/wire" && (le.Info(fn).Events > 0 || len(le.Info(fn).Reports) > 0) }, 10)
 		},
 	})
 }
